@@ -1,4 +1,5 @@
-"""Extractor for the Vfs unit (Verus, C13 / C15): Vfs::change_file_content, verbatim, with
+"""Extractor for the Vfs unit (Verus, C13 / C15): Vfs::{set_path_content, change_file_content, remove_uri, file_for_path,
+file_for_uri, content_for_file, line_map_for_file}, verbatim, with
 
   R17  `ensure!(COND, ..);` -> `if !(COND) { return Err(verif_error()); }`          (as in extract_conv.py)
   R20  `BUF += EXPR;` -> `BUF.push_str(EXPR);`   (what `impl AddAssign<&str> for String` does; Verus has a specification for
@@ -7,9 +8,11 @@
        these slicing expressions and whose assumed contract is str slicing (requires: inside the text, on a character
        boundary; the result is the uninterpreted cut `str_to` / `str_from` of the text)
   R22  the statement `log::trace!(..);` is dropped
+  R27  `RECV.with_context(|| format!(..))` on an Option -> `verif_with_context(RECV)` (anyhow::Context: None -> Err, Some(v) -> Ok(v); the message is dropped)
+  R28  `"literal".into()` where an Arc<str> is expected -> `verif_arc_str("literal")` (external_body helper whose body is `s.into()`)
 
-`Slab`, `Arc`, `String`, `TextSize/TextRange`, `anyhow`, `ide::Change`, `ide::FileId` and `LineMap::normalize` are
-stand-ins with assumed contracts (contracts/vfs_prelude.rs); `struct Vfs` is reduced to the two fields the method touches."""
+`Slab` (incl. its vacant-entry protocol), `Arc`, `String`, `TextSize/TextRange`, `anyhow`, `ide::Change`, `ide::FileId`, `ide::FileSet`,
+`Url`/`VfsPath` and `LineMap::normalize` are stand-ins with assumed contracts (contracts/vfs_prelude.rs)."""
 import os
 import re
 from rustcut import Source, AnchorLost, code_mask, match_brace
@@ -17,35 +20,70 @@ from extract_parser import Item, split_fn, strip_lead, fns_in
 from extract_conv import rewrite_ensure
 
 
+FNS = ('set_path_content', 'change_file_content', 'remove_uri', 'file_for_path', 'file_for_uri', 'content_for_file', 'line_map_for_file')
+WITH_CONTEXT_RX = re.compile(r'(\bself(?:\s*\.\s*\w+)*\s*\.\s*\w+\s*\([^()]*\))\s*\.\s*with_context\s*\(')
+
+
+def rewrite_with_context(b):
+    """R27: `RECV.with_context(|| format!(..))` on an Option -> `verif_with_context(RECV)` (anyhow::Context minus the message)"""
+    n = 0
+    while True:
+        mask = code_mask(b)
+        mm = next((c for c in WITH_CONTEXT_RX.finditer(b) if mask[c.start()]), None)
+        if not mm:
+            return b, n
+        pc = match_brace(b, mask, mm.end() - 1, '(', ')')
+        if not re.match(r'\s*\|\s*\|\s*format!\s*\(', b[mm.end():pc]):
+            raise AnchorLost('with_context argument is not `|| format!(..)`')
+        b = b[:mm.start()] + 'verif_with_context(%s)' % mm.group(1) + b[pc + 1:]
+        n += 1
+
+
 def extract(repo):
     vfs = Source(os.path.join(repo, 'crates/glas/src/vfs.rs'))
     s, o, c = vfs.cut_braced(r'^impl Vfs\b', 0)
+    items, notes, seen = [], [], set()
     for nm, fs, fo, fc in fns_in(vfs, 1, o + 1, c):
-        if nm == 'change_file_content':
-            h, b = split_fn(vfs, fs, fo, fc)
-            b, n17 = rewrite_ensure(b)
-            b, n22 = re.subn(r'^[ \t]*log::\w+!\s*\([^;]*\);[ \t]*\n', '', b, flags=re.M)
-            b, n20 = re.subn(r'^([ \t]*)(\w+)\s*\+=\s*([^;]+);', r'\1\2.push_str(\3);', b, flags=re.M)
-            b, n21a = re.subn(r'&\s*(\w+)\s*\[\s*\.\.\s*([^\[\]]+?)\s*\]', r'verif_str_to(\1, \2)', b)
-            b, n21b = re.subn(r'&\s*(\w+)\s*\[\s*([^\[\]]+?)\s*\.\.\s*\]', r'verif_str_from(\1, \2)', b)
-            code = ''.join(ch if m else ' ' for ch, m in zip(b, code_mask(b)))
-            if re.search(r'\b(bail|anyhow|format|ensure|log::\w+)!\s*\(', code) or re.search(r'\+=', code) or re.search(r'\[[^\]]*\.\.[^\]]*\]', code):
-                raise AnchorLost('Vfs::change_file_content uses a construct outside the rewrites R17/R20/R21/R22')
-            h = re.sub(r'^\s*pub\s+', '', strip_lead(h))
-            item = Item('fn', 'Vfs::change_file_content', None, 'crates/glas/src/vfs.rs', vfs.line_of(fs), header=h, body=b, owner='Vfs')
-            return {'items': [item], 'notes': ['R17 ensure! rewritten: %d, R20 `+=` -> push_str: %d, R21 slicing -> helpers: %d, R22 log statements dropped: %d' % (n17, n20, n21a + n21b, n22)]}
-    raise AnchorLost('vfs.rs: no Vfs::change_file_content')
+        if nm not in FNS:
+            continue
+        seen.add(nm)
+        h, b = split_fn(vfs, fs, fo, fc)
+        b, n17 = rewrite_ensure(b)
+        b, n22 = re.subn(r'^[ \t]*log::\w+!\s*\([^;]*\);[ \t]*\n', '', b, flags=re.M)
+        b, n20 = re.subn(r'^([ \t]*)(\w+)\s*\+=\s*([^;]+);', r'\1\2.push_str(\3);', b, flags=re.M)
+        b, n21a = re.subn(r'&\s*(\w+)\s*\[\s*\.\.\s*([^\[\]]+?)\s*\]', r'verif_str_to(\1, \2)', b)
+        b, n21b = re.subn(r'&\s*(\w+)\s*\[\s*([^\[\]]+?)\s*\.\.\s*\]', r'verif_str_from(\1, \2)', b)
+        b, n27 = rewrite_with_context(b)
+        b, n28 = re.subn(r'("(?:[^"\\]|\\.)*")\s*\.\s*into\s*\(\s*\)', r'verif_arc_str(\1)', b)
+        code = ''.join(ch if m else ' ' for ch, m in zip(b, code_mask(b)))
+        if re.search(r'\b(bail|anyhow|format|ensure|log::\w+)!\s*\(', code) or re.search(r'\+=', code) or re.search(r'\[[^\]]*\.\.[^\]]*\]', code):
+            raise AnchorLost('Vfs::%s uses a construct outside the rewrites R17/R20/R21/R22/R27/R28' % nm)
+        h = re.sub(r'^\s*pub\s+', '', strip_lead(h))
+        items.append(Item('fn', 'Vfs::' + nm, None, 'crates/glas/src/vfs.rs', vfs.line_of(fs), header=h, body=b, owner='Vfs'))
+        notes.append('%s: R17 ensure!: %d, R20 `+=` -> push_str: %d, R21 slicing -> helpers: %d, R22 log statements dropped: %d, R27 with_context: %d, R28 "..".into(): %d'
+                     % (nm, n17, n20, n21a + n21b, n22, n27, n28))
+    missing = [f for f in FNS if f not in seen]
+    if missing:
+        raise AnchorLost('vfs.rs: no Vfs::%s' % missing[0])
+    return {'items': items, 'notes': notes}
 
 
 def assemble(ex, prelude, fns_spec, loops_spec):
     import weave
     used_fn, used_loop, defaulted = set(), set(), []
-    it = ex['items'][0]
-    body = weave.emit_fn(it, fns_spec, loops_spec, used_fn, used_loop, defaulted)
     head = 'use vstd::prelude::*;\nuse std::sync::Arc;\nverus! {\n' + prelude + '\nimpl Vfs {\n'
-    text = head + body + '}\n} // verus!\nfn main() {}\n'
-    if 'Vfs::change_file_content' not in used_fn:
-        raise AnchorLost('@fn Vfs::change_file_content: no contract')
-    lo = head.count('\n') + 1
-    linemap = [(lo, lo + body.count('\n'), it.path, it.line, it.name)]
+    text, linemap = head, []
+    line = head.count('\n') + 1
+    for it in ex['items']:
+        body = weave.emit_fn(it, fns_spec, loops_spec, used_fn, used_loop, defaulted)
+        n = body.count('\n')
+        linemap.append((line, line + n - 1, it.path, it.line, it.name))
+        text += body
+        line += n
+    text += '}\n} // verus!\nfn main() {}\n'
+    for nm in fns_spec:
+        if nm not in used_fn:
+            raise AnchorLost('@fn %s: no such function in the working tree' % nm)
+    if defaulted:
+        raise AnchorLost('no contract for %s' % defaulted)
     return text, linemap, {'contracted': sorted(used_fn), 'loops_contracted': []}
